@@ -186,6 +186,7 @@ var inlineCheck = &core.Check{Name: "c05/inline", Quick: 1000, Thorough: 80000, 
 	}
 	var gotKeys []tlb.Uint16
 	var gotVals []tlb.Uint32
+	var again func(*boc.Cell) error
 	if withHead {
 		var h inlineHolder
 		if err := tlb.Unmarshal(cells[0], &h); err != nil {
@@ -195,6 +196,7 @@ var inlineCheck = &core.Check{Name: "c05/inline", Quick: 1000, Thorough: 80000, 
 			return fmt.Errorf("fields around an inline Hashmap decode as %d, ^%d, ^%d; the cell holds %d, ^%d, ^%d", h.Before, h.P.Value, h.R.Value, before, p, r)
 		}
 		gotKeys, gotVals = h.D.Keys(), h.D.Values()
+		again = func(cell *boc.Cell) error { return tlb.Unmarshal(cell, &h) }
 	} else {
 		var h inlineHolderTail
 		if err := tlb.Unmarshal(cells[0], &h); err != nil {
@@ -204,6 +206,7 @@ var inlineCheck = &core.Check{Name: "c05/inline", Quick: 1000, Thorough: 80000, 
 			return fmt.Errorf("fields after an inline Hashmap decode as ^%d, %d; the cell holds ^%d, %d", h.R.Value, h.After, r, after)
 		}
 		gotKeys, gotVals = h.D.Keys(), h.D.Values()
+		again = func(cell *boc.Cell) error { return tlb.Unmarshal(cell, &h) }
 	}
 	want := modelSortedPlain(model)
 	if len(gotKeys) != len(want) {
@@ -213,6 +216,32 @@ var inlineCheck = &core.Check{Name: "c05/inline", Quick: 1000, Thorough: 80000, 
 		if uint64(gotKeys[i]) != want[i].Key.Uint(0, 16) || uint64(gotVals[i]) != want[i].Value.Bits.Uint(0, 32) {
 			return fmt.Errorf("inline Hashmap entry %d decodes as %d -> %d, it holds %d -> %d", i, gotKeys[i], gotVals[i], want[i].Key.Uint(0, 16), want[i].Value.Bits.Uint(0, 32))
 		}
+	}
+	// the pairs a caller took from a decoded dictionary stay what was decoded, also when the same variable is
+	// the destination of another decode afterwards (whatever that second decode leaves in the variable)
+	if c.Bool("kept") {
+		other := boc.NewCell()
+		n2 := 1 + c.Intn("kept.n", 4)
+		ks, vs := make([]tlb.Uint16, n2), make([]tlb.Uint32, n2)
+		for i := range ks {
+			ks[i], vs[i] = tlb.Uint16(0xff00+i), tlb.Uint32(0xdead0000+i)
+		}
+		var second inlineHolderTail
+		second.D = tlb.NewHashmap(ks, vs)
+		if withHead {
+			if err := tlb.Marshal(other, inlineHolder{D: second.D}); err != nil {
+				return fmt.Errorf("HARNESS: %v", err)
+			}
+		} else if err := tlb.Marshal(other, second); err != nil {
+			return fmt.Errorf("HARNESS: %v", err)
+		}
+		_ = again(other) // judged elsewhere; here only what it does to the earlier result
+		for i := range want {
+			if uint64(gotKeys[i]) != want[i].Key.Uint(0, 16) || uint64(gotVals[i]) != want[i].Value.Bits.Uint(0, 32) {
+				return fmt.Errorf("the pairs taken from a decoded dictionary changed when the variable was decoded into again: entry %d is now %d -> %d, it was decoded as %d -> %d", i, gotKeys[i], gotVals[i], want[i].Key.Uint(0, 16), want[i].Value.Bits.Uint(0, 32))
+			}
+		}
+		c.Class("kept pairs checked after a second decode into the variable")
 	}
 	return nil
 }}
